@@ -1138,6 +1138,11 @@ pub fn check_case(v: &Value, workers: usize) -> Value {
                 }
                 // a predicted failure that does not happen means the injection did not fire: vacuous
                 if want_r["ok"] == false && t.ok {
+                    // ... unless the pass itself already broke the property (e.g. a due, unrelated head was
+                    // skipped so the failing head never ran): that is a violation, not a vacuous injection
+                    if !violations.is_empty() {
+                        return json!({"verdict": "violation", "kind": violations[0]["kind"], "detail": violations, "drift": drift, "stats": stats});
+                    }
                     return json!({"verdict": "vacuous", "detail": format!("step {idx}: model predicts {} but the real pass succeeded (fault injection did not fire)", want_r["err"])});
                 }
                 let got = step_json(&w, &t);
